@@ -75,7 +75,7 @@ def do_replay(mod, pid, args):
     with open(args.replay) as f:
         rp = json.load(f)
     case = rp["case"]
-    st, res = runner.run_in_child(mod.run_case, case)
+    st, res = runner.run_in_child(runner.run_case_entry, (mod, case))
     if st != "ok":
         print(res)
         print(f"HARNESS-ERROR property={pid} (replay)")
@@ -176,7 +176,7 @@ def do_check(mod, pid, modname, seed, args):
                            "minimised_case_size": shrink.size(small), "original_key": key,
                            "occurrences_in_this_run": len(agg.by_key[key])}, f, indent=1, sort_keys=True)
             # confirm in a fresh child before reporting
-            st, res = runner.run_in_child(mod.run_case, small)
+            st, res = runner.run_in_child(runner.run_case_entry, (mod, small))
             if st != "ok" or fkey not in [v["key"] for v in res["violations"]]:
                 print(f"HARNESS-ERROR property={pid}: minimised case for {fkey} does not reproduce")
                 return 2
